@@ -151,6 +151,9 @@ Proofs/PC07.vos Proofs/PC07.vok Proofs/PC07.required_vos: Proofs/PC07.v Model/Mo
 Proofs/PC08.vo Proofs/PC08.glob Proofs/PC08.v.beautified Proofs/PC08.required_vo: Proofs/PC08.v Model/Mon.vo Model/MonC07.vo Model/MonC08.vo Proofs/Framework.vo Proofs/StoreLocks.vo Proofs/StorePromises.vo Proofs/StoreCallbacks.vo Proofs/Discipline.vo Proofs/SysInv.vo Proofs/Eqb.vo Proofs/PC16.vo Proofs/PC05.vo Proofs/PC07.vo
 Proofs/PC08.vio: Proofs/PC08.v Model/Mon.vio Model/MonC07.vio Model/MonC08.vio Proofs/Framework.vio Proofs/StoreLocks.vio Proofs/StorePromises.vio Proofs/StoreCallbacks.vio Proofs/Discipline.vio Proofs/SysInv.vio Proofs/Eqb.vio Proofs/PC16.vio Proofs/PC05.vio Proofs/PC07.vio
 Proofs/PC08.vos Proofs/PC08.vok Proofs/PC08.required_vos: Proofs/PC08.v Model/Mon.vos Model/MonC07.vos Model/MonC08.vos Proofs/Framework.vos Proofs/StoreLocks.vos Proofs/StorePromises.vos Proofs/StoreCallbacks.vos Proofs/Discipline.vos Proofs/SysInv.vos Proofs/Eqb.vos Proofs/PC16.vos Proofs/PC05.vos Proofs/PC07.vos
+Proofs/PC08sel.vo Proofs/PC08sel.glob Proofs/PC08sel.v.beautified Proofs/PC08sel.required_vo: Proofs/PC08sel.v Model/Mon.vo Model/MonC08.vo Proofs/StoreCallbacks.vo
+Proofs/PC08sel.vio: Proofs/PC08sel.v Model/Mon.vio Model/MonC08.vio Proofs/StoreCallbacks.vio
+Proofs/PC08sel.vos Proofs/PC08sel.vok Proofs/PC08sel.required_vos: Proofs/PC08sel.v Model/Mon.vos Model/MonC08.vos Proofs/StoreCallbacks.vos
 Proofs/PC03.vo Proofs/PC03.glob Proofs/PC03.v.beautified Proofs/PC03.required_vo: Proofs/PC03.v Model/Mon.vo Model/MonC03.vo Proofs/Eqb.vo
 Proofs/PC03.vio: Proofs/PC03.v Model/Mon.vio Model/MonC03.vio Proofs/Eqb.vio
 Proofs/PC03.vos Proofs/PC03.vok Proofs/PC03.required_vos: Proofs/PC03.v Model/Mon.vos Model/MonC03.vos Proofs/Eqb.vos
@@ -214,9 +217,9 @@ Props/C04.vos Props/C04.vok Props/C04.required_vos: Props/C04.v Model/Mon.vos Mo
 Props/C07.vo Props/C07.glob Props/C07.v.beautified Props/C07.required_vo: Props/C07.v Model/Mon.vo Model/MonC07.vo Proofs/StoreLocks.vo Proofs/StorePromises.vo Proofs/StoreCallbacks.vo Proofs/Discipline.vo Proofs/SysInv.vo Proofs/PC05.vo Proofs/PC07.vo
 Props/C07.vio: Props/C07.v Model/Mon.vio Model/MonC07.vio Proofs/StoreLocks.vio Proofs/StorePromises.vio Proofs/StoreCallbacks.vio Proofs/Discipline.vio Proofs/SysInv.vio Proofs/PC05.vio Proofs/PC07.vio
 Props/C07.vos Props/C07.vok Props/C07.required_vos: Props/C07.v Model/Mon.vos Model/MonC07.vos Proofs/StoreLocks.vos Proofs/StorePromises.vos Proofs/StoreCallbacks.vos Proofs/Discipline.vos Proofs/SysInv.vos Proofs/PC05.vos Proofs/PC07.vos
-Props/C08.vo Props/C08.glob Props/C08.v.beautified Props/C08.required_vo: Props/C08.v Model/Mon.vo Model/MonC07.vo Model/MonC08.vo Proofs/SysInv.vo Proofs/PC08.vo
-Props/C08.vio: Props/C08.v Model/Mon.vio Model/MonC07.vio Model/MonC08.vio Proofs/SysInv.vio Proofs/PC08.vio
-Props/C08.vos Props/C08.vok Props/C08.required_vos: Props/C08.v Model/Mon.vos Model/MonC07.vos Model/MonC08.vos Proofs/SysInv.vos Proofs/PC08.vos
+Props/C08.vo Props/C08.glob Props/C08.v.beautified Props/C08.required_vo: Props/C08.v Model/Mon.vo Model/MonC07.vo Model/MonC08.vo Proofs/SysInv.vo Proofs/PC08.vo Proofs/PC08sel.vo
+Props/C08.vio: Props/C08.v Model/Mon.vio Model/MonC07.vio Model/MonC08.vio Proofs/SysInv.vio Proofs/PC08.vio Proofs/PC08sel.vio
+Props/C08.vos Props/C08.vok Props/C08.required_vos: Props/C08.v Model/Mon.vos Model/MonC07.vos Model/MonC08.vos Proofs/SysInv.vos Proofs/PC08.vos Proofs/PC08sel.vos
 Props/C03.vo Props/C03.glob Props/C03.v.beautified Props/C03.required_vo: Props/C03.v Model/Mon.vo Model/MonC01.vo Model/MonC04.vo Model/MonC03.vo Proofs/SysInv.vo Proofs/PC01.vo Proofs/PC04.vo Proofs/PC03.vo Proofs/PT03.vo
 Props/C03.vio: Props/C03.v Model/Mon.vio Model/MonC01.vio Model/MonC04.vio Model/MonC03.vio Proofs/SysInv.vio Proofs/PC01.vio Proofs/PC04.vio Proofs/PC03.vio Proofs/PT03.vio
 Props/C03.vos Props/C03.vok Props/C03.required_vos: Props/C03.v Model/Mon.vos Model/MonC01.vos Model/MonC04.vos Model/MonC03.vos Proofs/SysInv.vos Proofs/PC01.vos Proofs/PC04.vos Proofs/PC03.vos Proofs/PT03.vos
